@@ -142,7 +142,23 @@ func Load(repoDir, pattern string) (*Loaded, error) {
 	spkg, info, err := ssautil.BuildPackage(tc, fset, tpkg, files, ssa.NaiveForm)
 	if err != nil || len(terrs) > 0 {
 		sort.Strings(terrs)
-		return nil, fmt.Errorf("type-checking with generated contract functions failed:\n  %s\n(err=%v)", strings.Join(terrs, "\n  "), err)
+		// quote the generated clause function each error points into: it names the contract clause that does not bind
+		lines := strings.Split(src, "\n")
+		var quoted []string
+		for _, te := range terrs {
+			if i := strings.Index(te, "zz_verif_ghost_generated.go:"); i >= 0 {
+				var ln int
+				fmt.Sscanf(te[i+len("zz_verif_ghost_generated.go:"):], "%d", &ln)
+				if ln >= 1 && ln <= len(lines) {
+					l := lines[ln-1]
+					if len(l) > 600 {
+						l = l[:600] + "..."
+					}
+					quoted = append(quoted, fmt.Sprintf("line %d: %s", ln, l))
+				}
+			}
+		}
+		return nil, fmt.Errorf("type-checking with generated contract functions failed:\n  %s\n(err=%v)\n%s", strings.Join(terrs, "\n  "), err, strings.Join(quoted, "\n"))
 	}
 	ld.Pkg = tpkg
 	ld.Info = info
